@@ -33,6 +33,15 @@ CLAIMED["C20"] = ("Unbounded proof of the safety half: segmentStack.Stats sums o
   "Fixed finding S20 (fix: f464960). Not covered: that an empty dirty tree implies the lower level holds every batch (needs the persister region contracts, "
   "C13; known gap S14: a batch that only deletes a child collection leaves no segment); the progress half (gauges eventually reach zero) is outside this family.", "6/C20")
 
+CLAIMED["C18"] = ("Unbounded proof over all paths of every function that can reach a directory-changing primitive: os.Remove, removeFiles, removeFileOnClose (and its "
+  "deferred removal closures) and file creation require the ghost constant readOnlyMode() to be false, and every OpenFile call must pass O_RDONLY when it is true; "
+  "the obligations are discharged at every call site in openStore, OpenStore, Persist/persist, compactMaybe, compact, startOrReuseFile/startFileLOCKED/"
+  "createNextFileLOCKED, snapshotRevert and collection.Start (merger and persister are spawned only when not ReadOnly). The option fields the mode is linked to are "
+  "proved immutable after construction by a store-site scan.",
+  "Thin contracts: only the readOnly call-site obligations of these functions are generated (their other obligations belong to other properties). Assumed: writes "
+  "through a handle opened O_RDONLY are refused by the OS without effect; the OpenFile callback honours its flag; 'serves exactly the persisted content' is the "
+  "open path of C04 and is not decided here. Fixed finding S8 (fix: 8eb6f9b).", "6/C18")
+
 NA_REASONS = {
  "C17": "data-race freedom in the Go memory model is a whole-program property over every access (incl. runtime, mmap-go, ghistogram); no contract within reach of a "
         "sequential VC generator decides it (DESIGN.md section 7)",
